@@ -981,14 +981,28 @@ def rule_r9(ctx) -> List[R.Inst]:
         limit = 10 ** w
         # a bound: a comparison (in an if / assert / raise guard) of something named like the value with a constant >= 10**w - 1
         guards = []
+        loose = []
         for g in ast.walk(fn.node):
-            if isinstance(g, ast.Compare) and len(g.ops) == 1 and what in unparse(g) and any(
-                    isinstance(c_, ast.Constant) and isinstance(c_.value, (int, float)) and limit - 1 <= c_.value <= limit
-                    for c_ in [g.left] + g.comparators):
-                guards.append(g)
+            if isinstance(g, ast.Compare) and len(g.ops) == 1 and what in unparse(g):
+                l_, r_, op_ = g.left, g.comparators[0], type(g.ops[0])
+                if isinstance(l_, ast.Constant) and not isinstance(r_, ast.Constant):      # const OP value  ->  value OP' const
+                    l_, r_, op_ = r_, l_, {ast.Lt: ast.Gt, ast.LtE: ast.GtE, ast.Gt: ast.Lt, ast.GtE: ast.LtE}.get(op_, op_)
+                if isinstance(r_, ast.Constant) and isinstance(r_.value, (int, float)) and not isinstance(r_.value, bool):
+                    c_ = r_.value
+                    # the test separates "fits" from "does not fit" at the right place: value > c / value <= c with c <= limit - 1,
+                    # value >= c / value < c with c <= limit (a stricter bound still keeps every written value inside the field)
+                    if (op_ in (ast.Gt, ast.LtE) and 0 < c_ <= limit - 1) or (op_ in (ast.GtE, ast.Lt) and 0 < c_ <= limit):
+                        guards.append(g)
+                    elif limit - 1 <= c_ <= limit * 10:
+                        loose.append(g)
         key = f"fixed-width:{what}"
         if guards:
             insts.append(R.ok(rid, key, file, guards[0].lineno, idiom=f"'{what}' is compared with {limit - 1}/{limit} before it is written into {w} digits"))
+        elif loose:
+            insts.append(R.viol(rid, key, file, loose[0].lineno,
+                                f"the bound '{unparse(loose[0])}' lets {limit} through: a {w}-digit field holds at most {limit - 1}, so '{what}' = "
+                                f"{limit} is written as '#{limit}…' and every reader, which slices the fixed positions, takes the wrong measure "
+                                f"and channel", construct=f"{w}-digit field of {what} bounded one too high: {unparse(loose[0])}"))
         else:
             insts.append(R.viol(rid, key, file, getattr(node, "lineno", fn.node.lineno),
                                 f"'{what}' is written into a {w}-digit field without a bound: a value of {limit} or more widens the field "
